@@ -416,14 +416,14 @@ Section NestOpen.
   Proof.
     induction n as [|n IH]; intros acc s r s' H; cbn [params_loop] in H; [discriminate|].
     cbv zeta in H. brk.
-    - apply IH in H. rewrite H. autorewrite with logs. reflexivity.
-    - reflexivity.
+    all: try (apply IH in H; rewrite H); clear IH.
+    all: unfold expect in *; brk; autorewrite with logs in *; try congruence.
   Qed.
 
   Lemma q_parse_function_parameters : quiet (parse_function_parameters lf).
   Proof.
     intros s r s' H. unfold parse_function_parameters in H. cbv zeta in H. brk.
-    all: try (apply q_params_loop in E0).
+    all: try (apply q_params_loop in H; rewrite H).
     all: unfold expect in *; brk; autorewrite with logs in *; try congruence.
   Qed.
 
